@@ -20,7 +20,8 @@ Inductive op :=
 | OTMut (x : ident) (v : nat)                  (* `+= v` through the infallible x_data_mut() *)
 | OInto (s : ident)                            (* dynamic into_<s>() *)
 | OIntoDyn
-| ODrop.
+| ODrop
+| OUnpolled (e : ident) (pl : option nat).    (* async only: create the future of the call and drop it without polling it once *)
 
 Inductive ores :=
 | ORok | ORerrG (e : gerr) | ORerrD (e : derr)
@@ -72,6 +73,9 @@ Definition state_acc (s : ident) : option (ident * ident * ident) :=
   find (fun t => String.eqb (fst (fst t)) s) (gr_state_accs g).
 Definition spec_field (x : ident) : option ident :=
   match state_acc x with Some (_, _, f) => Some f | None => None end.
+
+(* the machine is `async: true` (every generated method then is) *)
+Definition gir_async : bool := existsb (fun gi => existsb gm_async (gi_methods gi)) (gr_impls g).
 
 (* (result, trace, pendings, new holder) *)
 Definition step_core (h : holder) (o : op) : ores * list call * nat * holder :=
@@ -172,6 +176,20 @@ Definition step_core (h : holder) (o : op) : ores * list call * nat * holder :=
       | None => (ORbadop, [], 0, h)
       end
   | ODrop, _ => (ORok, [], 0, HNone)
+  (* a future that is never polled has done nothing: an `async fn` body starts at the first poll.  The typed
+     method took the machine by value, so dropping its future drops the machine; handle(&mut self) only
+     borrowed the wrapper, which is exactly as it was *)
+  | OUnpolled e pl, HT m =>
+      match methods_of g (tm_state m) (to_snake_case e) with
+      | [] => (ORnomethod, [], 0, h)
+      | [gm] => if gm_async gm then (ORabandoned, [], 0, HNone) else (ORbadop, [], 0, h)
+      | _ => (ORstuck, [], 0, h)
+      end
+  | OUnpolled e pl, HD d =>
+      match gr_dyn g with
+      | Some gd => if gir_async then (ORabandoned, [], 0, h) else (ORbadop, [], 0, h)
+      | None => (ORbadop, [], 0, h)
+      end
   | _, _ => (ORbadop, [], 0, h)
   end.
 
@@ -184,6 +202,19 @@ Definition op_payload (h : holder) (o : op) : list nat :=
       | [] => []
       end
   | OHandle e (Some p) _ _, HD _ =>
+      match gr_dyn g with
+      | Some gd => match event_variant gd e with
+                   | Some (_, _, Some _) => [p]
+                   | _ => []
+                   end
+      | None => []
+      end
+  | OUnpolled e (Some p), HT m =>
+      match methods_of g (tm_state m) (to_snake_case e) with
+      | gm :: _ => match gm_payload gm with Some _ => [p] | None => [] end
+      | [] => []
+      end
+  | OUnpolled e (Some p), HD _ =>
       match gr_dyn g with
       | Some gd => match event_variant gd e with
                    | Some (_, _, Some _) => [p]
